@@ -3,6 +3,7 @@
 //@rewrite `naga::StorageAccess::STORE` => `sa_store()` :: as above
 //@rewrite `naga::StorageAccess::ATOMIC` => `sa_atomic()` :: as above
 //@hoist-closure-patterns :: closure parameter patterns `|(a, b)|` hoisted into `|p| { let (a, b) = p; .. }` (Verus accepts only variables as closure parameters); same bindings
+//@rewrite `.enumerate()` => `.shim_enumerate()` :: provided trait method Iterator::enumerate (does not occur in the pinned text of this unit; a change that numbers entries by position uses it): stand-in with the std meaning (spec/lib/iter_shims.rs)
 //@hoist-format-captures :: format! inline captures hoisted to positional arguments (a macro_rules stand-in cannot look inside a string literal); same values, same order
 // Unit bindgroup_gen: the bind group generators of bindgroup.rs against token-level structure specs.
 #![feature(allocator_api)]
@@ -21,11 +22,13 @@ use proc_macro2::{TokenStream, Literal, Span};
 use syn::Ident;
 #[path = "../../spec/lib/prelude.rs"] pub mod prelude;
 #[macro_use] #[path = "../../spec/lib/tokens.rs"] pub mod tokens;
+#[path = "../../spec/lib/iter_shims.rs"] pub mod iter_shims;
 #[path = "../../spec/lib/wgpu_shim.rs"] pub mod wgpu;
 #[path = "../../spec/lib/seq_lemmas.rs"] pub mod seq_lemmas;
 #[path = "../../spec/lib/model_common.rs"] pub mod model_common;
 use prelude::*;
 use tokens::*;
+use iter_shims::*;
 use seq_lemmas::*;
 use model_common::*;
 #[path = "../../spec/lib/model_bindgroup.rs"] pub mod model_bindgroup;
@@ -311,7 +314,7 @@ fn bind_group_layout(group_no: u32, group: &GroupData) -> «(r:» TokenStream«)
     let fields: Vec<_> = group
         .bindings
         .iter()
-        .map(|binding| «-> (o: TokenStream) requires binding_ok(binding) ensures ts_view(&o) == field_toks(binding)» {
+        .map(|binding| «-> (o: TokenStream) requires binding_ok(binding) ensures ts_view(&o) == field_toks(binding) /* [C04.fields] one field per binding, named after the variable, typed by resource kind */» {
             let binding_name = binding.name.as_ref().unwrap();
             let field_name = Ident::new(binding_name, Span::call_site());
             // TODO: Support more types.
@@ -350,7 +353,7 @@ fn bind_group(group_no: u32, group: &GroupData) -> «(r:» TokenStream«)
     let entries: Vec<_> = group
         .bindings
         .iter()
-        .map(|binding| «-> (o: TokenStream) requires binding_ok(binding) ensures ts_view(&o) == entry_toks(binding)» {
+        .map(|binding| «-> (o: TokenStream) requires binding_ok(binding) ensures ts_view(&o) == entry_toks(binding) /* [C04.entries] [C11.entries] the SAME binding supplies the slot index and the field name */» {
             let binding_index = Literal::usize_unsuffixed(binding.binding_index as usize);
             let binding_name = binding.name.as_ref().unwrap();
             let field_name = Ident::new(binding.name.as_ref().unwrap(), Span::call_site());
